@@ -1,10 +1,5 @@
 #!/bin/bash
 # Build the framework from files on disk only (offline).  Run in /verif.
-set -e
 cd "$(dirname "$0")/.."
 mkdir -p evidence replays
-# regenerate Gen/*.lean from /repo's current tree, then build every Lean module and the driver
-python3 tools/regen_all.py || true
-cd lean
-lake build driver 2>&1 | tail -3
-lake build 2>&1 | tail -5
+python3 tools/setup_build.py 2>&1 | tail -25
